@@ -59,20 +59,18 @@ theorem noRawEnd_of_head {modes : List Mode} (hb : NoRawEndBelow modes)
     · exact hb x (by simpa using hx)
 
 /-- The decision for a non-error token: it moves, by exactly the bytes of a prefix of the input;
-the line counter is exact unless the token comes from `consume_format_options`, where it is
-unchanged; and the new mode stack is consistent with the input that remains. -/
+the line counter advances by the line breaks of that prefix; and the new mode stack is consistent
+with the input that remains. -/
 def DecOk (cs : List Ch) (p : Pos) (d : Decision) : Prop :=
   ∃ n q k, d.move = .adv n q ∧ k ≤ cs.length ∧ n = byteLen (cs.take k) ∧
-    (d.fromFormat = false → q.line = p.line + nlCount (cs.take k)) ∧
-    (d.fromFormat = true → q.line = p.line) ∧
+    q.line = p.line + nlCount (cs.take k) ∧
     ModeOk d.modes (cs.drop k) ∧ NoRawEndBelow d.modes
 
 theorem decOk_of_consumes {cs : List Ch} {p : Pos} {d : Decision} {n : Nat} {q : Pos}
-    (hm : d.move = .adv n q) (hc : Consumes true cs p (.adv n q)) (hf : d.fromFormat = false)
+    (hm : d.move = .adv n q) (hc : Consumes true cs p (.adv n q))
     (hmodes : NoRawEnd d.modes) : DecOk cs p d := by
   obtain ⟨k, h1, h2, h3⟩ := hc
-  exact ⟨n, q, k, hm, h1, h2, fun _ => h3 rfl, fun h => by simp [hf] at h,
-    modeOk_of_noRawEnd hmodes _, noRawEndBelow_of_noRawEnd hmodes⟩
+  exact ⟨n, q, k, hm, h1, h2, h3 rfl, modeOk_of_noRawEnd hmodes _, noRawEndBelow_of_noRawEnd hmodes⟩
 
 /-! ### tokens other than Error always move -/
 
@@ -131,7 +129,10 @@ theorem consumeFormatOptions_adv (p : Pos) (cs : List Ch) (h : (consumeFormatOpt
   | some rest =>
     cases hf : findRBrace rest with
     | none => simp [hd, hf] at h
-    | some e => simp [hf, advLine]
+    | some e =>
+      cases hp : prefixAt (e + formatSkip cs) cs with
+      | none => simp [hd, hf, hp] at h
+      | some consumed => simp [hf, hp]
 
 /-! ### consume_id_or_keyword -/
 
@@ -191,9 +192,9 @@ theorem consumeIdOrKeyword_ok (p : Pos) (prevTok : Option Token) (c : Ch) (rest 
 /-! ### the dispatch -/
 
 theorem decOk_ascii {cs : List Ch} {p : Pos} {d : Decision} {k : Nat}
-    (hm : d.move = advLine p k) (hk : k ≤ asciiRun cs) (hf : d.fromFormat = false)
+    (hm : d.move = advLine p k) (hk : k ≤ asciiRun cs)
     (hmodes : NoRawEnd d.modes) : DecOk cs p d :=
-  decOk_of_consumes (n := k) (q := ⟨p.line, p.col + k⟩) hm (consumes_ascii true hk) hf hmodes
+  decOk_of_consumes (n := k) (q := ⟨p.line, p.col + k⟩) hm (consumes_ascii true hk) hmodes
 
 theorem decideDefault_ok (p : Pos) (prevTok : Option Token) (modes : List Mode) (c : Ch) (rest : List Ch)
     (ht : TableOk (c :: rest)) (hmodes : NoRawEnd modes)
@@ -203,37 +204,37 @@ theorem decideDefault_ok (p : Pos) (prevTok : Option Token) (modes : List Mode) 
   simp only at h ⊢
   by_cases h1 : isWhitespace c.cp = true
   · simp only [h1, if_true] at h ⊢
-    exact decOk_ascii rfl (countWhile_le_asciiRun _ (fun _ h => isWhitespace_plain h) _) rfl hmodes
+    exact decOk_ascii rfl (countWhile_le_asciiRun _ (fun _ h => isWhitespace_plain h) _) hmodes
   simp only [h1] at h ⊢
   by_cases h2 : (c.cp = cpCR || c.cp = cpNL) = true
   · simp only [h2, if_true] at h ⊢
     obtain ⟨n, q, hm⟩ := consumeNewline_adv p (c :: rest) h
     have := consumeNewline_consumes p (c :: rest)
     rw [hm] at this
-    exact decOk_of_consumes hm this rfl hmodes
+    exact decOk_of_consumes hm this hmodes
   simp only [h2] at h ⊢
   by_cases h3 : c.cp = cpHash
   · simp only [h3, if_true] at h ⊢
     obtain ⟨n, q, hm⟩ := consumeComment_adv p (c :: rest) h
     have := consumeComment_consumes p c rest h3
     rw [hm] at this
-    exact decOk_of_consumes hm this rfl hmodes
+    exact decOk_of_consumes hm this hmodes
   simp only [h3, if_false] at h ⊢
   by_cases h4 : c.cp = cpDQ
   · simp only [h4, if_true] at h ⊢
     have hc : plain c.cp = true := by rw [h4]; decide
-    exact decOk_ascii (k := 1) rfl (by rw [asciiRun_cons_plain hc]; omega) rfl
+    exact decOk_ascii (k := 1) rfl (by rw [asciiRun_cons_plain hc]; omega)
       (noRawEnd_cons rfl hmodes)
   simp only [h4, if_false] at h ⊢
   by_cases h5 : c.cp = cpSQ
   · simp only [h5, if_true] at h ⊢
     have hc : plain c.cp = true := by rw [h5]; decide
-    exact decOk_ascii (k := 1) rfl (by rw [asciiRun_cons_plain hc]; omega) rfl
+    exact decOk_ascii (k := 1) rfl (by rw [asciiRun_cons_plain hc]; omega)
       (noRawEnd_cons rfl hmodes)
   simp only [h5, if_false] at h ⊢
   by_cases h6 : isAsciiDigit c.cp = true
   · simp only [h6, if_true] at h ⊢
-    exact decOk_ascii rfl (numberBytes_le _) rfl hmodes
+    exact decOk_ascii rfl (numberBytes_le _) hmodes
   simp only [h6] at h ⊢
   by_cases h7 : c.idStart = true
   · simp only [h7, if_true] at h ⊢
@@ -244,18 +245,18 @@ theorem decideDefault_ok (p : Pos) (prevTok : Option Token) (modes : List Mode) 
       obtain ⟨⟨n, q, hm⟩, hc⟩ := this
       simp only
       subst hm
-      exact decOk_of_consumes rfl hc rfl hmodes
+      exact decOk_of_consumes rfl hc hmodes
     | raw q' h' m =>
       rw [hr] at this
       obtain ⟨⟨n, q, hm⟩, hc⟩ := this
       simp only
       subst hm
-      exact decOk_of_consumes rfl hc rfl (noRawEnd_cons rfl hmodes)
+      exact decOk_of_consumes rfl hc (noRawEnd_cons rfl hmodes)
   simp only [h7] at h ⊢
   by_cases h8 : c.cp = cpUnderscore
   · simp only [h8, if_true] at h ⊢
     simp only [consumeIgnored]
-    exact decOk_of_consumes rfl (id_consumes p ht (Or.inr h8) _) rfl hmodes
+    exact decOk_of_consumes rfl (id_consumes p ht (Or.inr h8) _) hmodes
   simp only [h8, if_false] at h ⊢
   cases hs : lookupSymbol (c :: rest) symbolTable with
   | none => simp [hs] at h
@@ -263,7 +264,7 @@ theorem decideDefault_ok (p : Pos) (prevTok : Option Token) (modes : List Mode) 
     obtain ⟨n, sy⟩ := nsy
     simp only
     have hc := symbol_consumes p hs
-    refine decOk_of_consumes rfl hc rfl ?_
+    refine decOk_of_consumes rfl hc ?_
     show NoRawEnd (if _ then _ else _)
     split
     · exact noRawEnd_cons rfl hmodes
@@ -293,19 +294,19 @@ theorem decideTok_ok (p : Pos) (prevTok : Option Token) (modes : List Mode) (c :
         simp [hmode] at hm; subst hm; rfl)
       by_cases h1 : isQuote q c.cp = true
       · simp only [h1, if_true] at h ⊢
-        exact decOk_ascii (k := 1) rfl (by rw [asciiRun_cons_plain (isQuote_plain h1)]; omega) rfl
+        exact decOk_ascii (k := 1) rfl (by rw [asciiRun_cons_plain (isQuote_plain h1)]; omega)
           (noRawEnd_tail hnb)
       · simp only [h1] at h ⊢
         by_cases h2 : c.cp = cpLBrace
         · simp only [h2, if_true] at h ⊢
           have hc : plain c.cp = true := by rw [h2]; decide
-          exact decOk_ascii (k := 1) rfl (by rw [asciiRun_cons_plain hc]; omega) rfl
+          exact decOk_ascii (k := 1) rfl (by rw [asciiRun_cons_plain hc]; omega)
             (noRawEnd_cons rfl hall)
         · simp only [h2, if_false] at h ⊢
           obtain ⟨n, q', hm⟩ := stringLiteralLoop_adv q (c :: rest) p h
           have := stringLiteralLoop_consumes q (c :: rest) p
           rw [hm] at this
-          exact decOk_of_consumes hm this rfl hall
+          exact decOk_of_consumes hm this hall
     | templateExpr =>
       simp only [hmode] at h ⊢
       exact decideDefault_ok p prevTok modes c rest ht
@@ -319,7 +320,7 @@ theorem decideTok_ok (p : Pos) (prevTok : Option Token) (modes : List Mode) (c :
       obtain ⟨h1, n, q, hm⟩ := consumeFormatOptions_adv p (c :: rest) h
       obtain ⟨k, hk1, hk2, hk3⟩ := consumeFormatOptions_spec p (c :: rest) n q hm
       have hpop : NoRawEnd (popMode modes) := noRawEnd_tail hnb
-      refine ⟨n, q, k, hm, hk1, hk2, fun hf => by simp at hf, fun _ => hk3, ?_, ?_⟩
+      refine ⟨n, q, k, hm, hk1, hk2, hk3, ?_, ?_⟩
       · simp only [h1, if_true]; exact modeOk_of_noRawEnd hpop _
       · simp only [h1, if_true]; exact noRawEndBelow_of_noRawEnd hpop
     | rawStart q hsh =>
@@ -332,7 +333,7 @@ theorem decideTok_ok (p : Pos) (prevTok : Option Token) (modes : List Mode) (c :
         rw [hr] at hspec
         obtain ⟨k, hk1, hk2, hk3, hk4⟩ := hspec
         simp only
-        refine ⟨bytes, pos, k, rfl, hk1, hk2, fun _ => hk3, fun hf => by simp at hf, ?_, ?_⟩
+        refine ⟨bytes, pos, k, rfl, hk1, hk2, hk3, ?_, ?_⟩
         · simp only [ModeOk, List.head?_cons]; exact hk4
         · intro m hm
           exact noRawEnd_tail hnb m (by simpa using hm)
@@ -340,6 +341,6 @@ theorem decideTok_ok (p : Pos) (prevTok : Option Token) (modes : List Mode) (c :
       simp only [hmode] at h ⊢
       have hrun : 1 + hsh ≤ asciiRun (c :: rest) := by
         simpa [ModeOk, hmode] using hmo
-      exact decOk_ascii rfl hrun rfl (noRawEnd_tail hnb)
+      exact decOk_ascii rfl hrun (noRawEnd_tail hnb)
 
 end KotoVerif.Lexer
